@@ -394,6 +394,25 @@ func run(t *testing.T, c Case, scratch string) outcome {
 			o.clean = errors.Is(err, errs.ErrFileNotFound)
 		}
 		return o
+	case c.Mode == "tar-peek-rewind":
+		// look into the layer through its tar view, then rewind the blob itself and read it raw
+		tr, err := rdr.ToTarReader()
+		if err != nil {
+			o.err = err
+			return o
+		}
+		if _, fr, err := tr.ReadFile("f.txt"); err == nil && fr != nil {
+			buf := make([]byte, 2)
+			_, _ = io.ReadFull(fr, buf)
+		}
+		if _, err := rdr.Seek(0, io.SeekStart); err != nil {
+			o.err = err
+			return o
+		}
+		o.pass2 = true
+		o.acc, o.err = readAll(rdr, []int{4096})
+		o.clean = o.err == io.EOF
+		return o
 	case c.Mode == "ociconfig":
 		oc, err := rdr.ToOCIConfig()
 		o.err = err
@@ -433,6 +452,15 @@ func judge(c Case, o outcome) (string, string) {
 		// whole blob (RawBody / ToOCIConfig returned nil; ReadFile of an absent name answered "not
 		// found", which it may only say after reading to the end)
 		y := xform(x, c.Xform)
+		if c.Mode == "tar-peek-rewind" {
+			if o.clean && !bytes.Equal(o.acc, x) {
+				return "clean-read-of-wrong-content structured-reader", fmt.Sprintf("after a look through the tar view and a rewind the raw read ended cleanly on %d bytes that are not the content the descriptor names (%d bytes)", len(o.acc), len(x))
+			}
+			if !o.clean && bytes.Equal(y, x) && c.Stated == "" {
+				return "intact-stream-unreadable structured-reader", fmt.Sprintf("mode %s failed on intact content: %v", c.Mode, o.err)
+			}
+			return "", ""
+		}
 		if o.clean && !bytes.Equal(y, x) {
 			return "clean-read-of-wrong-content structured-reader", fmt.Sprintf("mode %s reported the blob as read to the end and accepted, but the stored/served bytes differ from the content the descriptor names (%s)", c.Mode, c.Xform)
 		}
@@ -666,7 +694,7 @@ func enumerateStructured(emit func(Case)) {
 		}
 		xfs = append([]string{"id"}, xfs...)
 		xfs = append(xfs, fmt.Sprintf("trunc@%d", n-1), fmt.Sprintf("trunc@%d", n/2), "extra1", "extra2")
-		modes := []string{"tar-rawbody", "tar-missing-file", "tar-walk"}
+		modes := []string{"tar-rawbody", "tar-missing-file", "tar-walk", "tar-peek-rewind"}
 		if cn == "@config" {
 			modes = []string{"ociconfig"}
 		}
@@ -693,7 +721,7 @@ func enumerateStructured(emit func(Case)) {
 func TestVerifC01(t *testing.T) {
 	rec := ev.New()
 	defer rec.Flush(t)
-	rec.Rule("case = content (all strings over {a,b} of length 0..4, thorough 0..6, plus one 70-byte string) x digest algorithm x size stated/unknown/stated wrongly (±1, half, double; digest right) x store {registry (scripted transport), OCI layout file, inline data} x served-stream transformation {identity, flip at every offset, truncation at every offset, 1-2 extra bytes, substitution of equal / greater / smaller length} x Content-Length {right, absent, +1, -1, of the intended content} x Docker-Content-Digest header {absent, the digest asked by, the digest of what is served, that digest in the other algorithm} x every composition of read sizes from {1,2,3} (plus large reads and zero-length reads) x EOF with / after the last data x mode {read, RawBody, rewind after k bytes then read}; plus the structured readers on real content (a tar, a gzip-compressed tar, a config JSON; flips at 21 positions incl. header, data, padding and trailer, truncations, extra bytes): BTarReader.RawBody, ReadFile of an absent name, a full walk followed by that search, ToOCIConfig x connection drops at every offset (1, and 2 nearby) x range answer {correct, shifted -1/+1, other bytes, 200 full body, 206 without Content-Range, 416, 500 then correct}. " +
+	rec.Rule("case = content (all strings over {a,b} of length 0..4, thorough 0..6, plus one 70-byte string) x digest algorithm x size stated/unknown/stated wrongly (±1, half, double; digest right) x store {registry (scripted transport), OCI layout file, inline data} x served-stream transformation {identity, flip at every offset, truncation at every offset, 1-2 extra bytes, substitution of equal / greater / smaller length} x Content-Length {right, absent, +1, -1, of the intended content} x Docker-Content-Digest header {absent, the digest asked by, the digest of what is served, that digest in the other algorithm} x every composition of read sizes from {1,2,3} (plus large reads and zero-length reads) x EOF with / after the last data x mode {read, RawBody, rewind after k bytes then read}; plus the structured readers on real content (a tar, a gzip-compressed tar, a config JSON; flips at 21 positions incl. header, data, padding and trailer, truncations, extra bytes): BTarReader.RawBody, ReadFile of an absent name, a full walk followed by that search, a look at one file through the tar view followed by a rewind and a raw read of the blob, ToOCIConfig x connection drops at every offset (1, and 2 nearby) x range answer {correct, shifted -1/+1, other bytes, 200 full body, 206 without Content-Range, 416, 500 then correct}. " +
 		"Oracle: a read that ends in io.EOF delivered exactly the intended content (the only string of the alphabet with that digest); an intact stream (with correct resumes) must be readable. distinct_nontrivial = cases whose served stream differs from the intended content or involves a drop")
 	rec.Assume("the scripted transport hands out bodies the way net/http does (never more than Content-Length bytes; early close = unexpected EOF)")
 	rec.Assume("two distinct strings of the enumerated alphabet never share a digest")
